@@ -6,13 +6,16 @@ namespace Verif.C06
 
 variable {R : Type}
 
+/-- `passedP ph d i`: `d` has decremented its trigger number `i` -/
+def passedP (ph : Nat → Phase) : Nat → Nat → Bool := fun d i => (ph d).passed i
+
 structure Inv (cfg : Cfg) (g : Dag) (f : Nat → List R → Option R) (s : State R) : Prop where
   outside : ∀ a, g.n < a → s.phase a = .done
-  /-- `pending t` counts the dependencies that have not decremented it yet -/
-  pend : ∀ t, t ≤ g.n → s.pending t = (g.deps t).countP (fun d => (s.decAt d t).isNone)
+  /-- `pending t` counts the trigger entries pointing to `t` that have not been decremented yet -/
+  pend : ∀ t, t ≤ g.n → s.pending t = openEdges g (passedP s.phase) t
   /-- `d` has decremented its `i`-th trigger iff its trigger loop is past `i` -/
-  decIff : ∀ d, d ≤ g.n → ∀ i t, (g.trig d)[i]? = some t →
-    (s.decAt d t).isSome = (s.phase d).passed i
+  decIff : ∀ d, d ≤ g.n → ∀ i, i < (g.trig d).length →
+    (s.decAt d i).isSome = (s.phase d).passed i
   idleIff : ∀ t, t ≤ g.n → (s.phase t = .idle ↔ 0 < s.pending t)
   trigBound : ∀ a, a ≤ g.n → ∀ k, (s.phase a = .trig k → k ≤ (g.trig a).length) ∧
     (s.phase a = .sending k → k < (g.trig a).length)
@@ -40,7 +43,7 @@ structure InvT (g : Dag) (s : State R) : Prop where
   tsZero : ∀ t z, s.zeroAt t = some z → z < s.now
   hbDec : ∀ d t k, d ≤ g.n → s.decAt d t = some k → ∃ i, s.execAt d = some i ∧ i < k
   hbZero : ∀ t z, t ≤ g.n → s.zeroAt t = some z →
-    ∀ d ∈ g.deps t, ∃ k, s.decAt d t = some k ∧ k ≤ z
+    ∀ d i, d ≤ g.n → (g.trig d)[i]? = some t → ∃ k, s.decAt d i = some k ∧ k ≤ z
   hbStart : ∀ t, t ≤ g.n → s.phase t ≠ .idle → g.deps t ≠ [] → ∃ z, s.zeroAt t = some z
   hbExec : ∀ a j, a ≤ g.n → s.execAt a = some j → g.deps a ≠ [] →
     ∃ z, s.zeroAt a = some z ∧ z < j
@@ -86,11 +89,77 @@ theorem le_of_phase (hi : Inv cfg g f s) {a : Nat} (h : s.phase a ≠ .done) : a
 theorem passed_executed {ph : Phase} {i : Nat} (h : ph.passed i = true) : ph.executed = true := by
   cases ph <;> simp_all [Phase.passed, Phase.executed]
 
-/-- an action that has left `idle` has been decremented by all its dependencies -/
-theorem deps_passed (hw : WF g) (hi : Inv cfg g f s) {t : Nat} (ht : t ≤ g.n)
-    (hne : s.phase t ≠ .idle) : ∀ d ∈ g.deps t, ∃ i, (g.trig d)[i]? = some t ∧
-      (s.phase d).passed i = true ∧ (s.decAt d t).isSome = true := by
+/-! ### trigger entries not yet decremented -/
+
+theorem getElem?_lt {l : List Nat} {i x : Nat} (h : l[i]? = some x) : i < l.length := by
+  obtain ⟨h', _⟩ := List.getElem?_eq_some_iff.mp h
+  exact h'
+
+theorem openEdges_pos {P : Nat → Nat → Bool} {t : Nat} (h : 0 < openEdges g P t) :
+    ∃ d i, d ≤ g.n ∧ (g.trig d)[i]? = some t ∧ P d i = false := by
+  unfold openEdges at h
+  obtain ⟨d, hd, hpos⟩ := sumUpTo_pos _ _ h
+  obtain ⟨i, hi, hpos'⟩ := sumUpTo_pos _ _ hpos
+  refine ⟨d, i, by omega, ?_⟩
+  by_cases hc : (g.trig d)[i]? = some t ∧ P d i = false
+  · exact hc
+  · simp [hc] at hpos'
+
+theorem openEdges_zero {P : Nat → Nat → Bool} {t : Nat} (h : openEdges g P t = 0) :
+    ∀ d i, d ≤ g.n → (g.trig d)[i]? = some t → P d i = true := by
+  intro d i hd hi
+  unfold openEdges at h
+  have h1 := sumUpTo_eq_zero _ _ h d (by omega)
+  have h2 := sumUpTo_eq_zero _ _ h1 i (getElem?_lt hi)
+  cases hp : P d i with
+  | true => rfl
+  | false => simp [hi, hp] at h2
+
+theorem openEdges_congr {P P' : Nat → Nat → Bool} (t : Nat)
+    (h : ∀ d i, d ≤ g.n → i < (g.trig d).length → P' d i = P d i) :
+    openEdges g P' t = openEdges g P t := by
+  unfold openEdges
+  apply sumUpTo_congr
   intro d hd
+  apply sumUpTo_congr
+  intro i hi
+  rw [h d i (by omega) hi]
+
+/-- one entry `(a, k)` becomes decremented: the count for its target drops by one, all
+other counts stay -/
+theorem openEdges_flip {P P' : Nat → Nat → Bool} {a k : Nat} (ha : a ≤ g.n)
+    (hk : k < (g.trig a).length) (h0 : P a k = false) (h1 : P' a k = true)
+    (hoth : ∀ d i, d ≤ g.n → i < (g.trig d).length → ¬ (d = a ∧ i = k) → P' d i = P d i) (t : Nat) :
+    openEdges g P t = openEdges g P' t + (if (g.trig a)[k]? = some t then 1 else 0) := by
+  unfold openEdges
+  have inner : sumUpTo (fun i => if (g.trig a)[i]? = some t ∧ P a i = false then 1 else 0) (g.trig a).length =
+      sumUpTo (fun i => if (g.trig a)[i]? = some t ∧ P' a i = false then 1 else 0) (g.trig a).length +
+      (if (g.trig a)[k]? = some t then 1 else 0) := by
+    have := sumUpTo_upd (fun i => if (g.trig a)[i]? = some t ∧ P a i = false then 1 else 0)
+      (fun i => if (g.trig a)[i]? = some t ∧ P' a i = false then 1 else 0) (g.trig a).length k hk
+      (by
+        intro x hx
+        by_cases hxl : x < (g.trig a).length
+        · rw [hoth a x ha hxl (by intro h; exact hx h.2)]
+        · have : (g.trig a)[x]? = none := List.getElem?_eq_none (by omega)
+          simp [this])
+    simp only [h0, h1, and_true, Bool.true_eq_false, and_false, if_false] at this
+    omega
+  have outer := sumUpTo_upd'
+    (fun d => sumUpTo (fun i => if (g.trig d)[i]? = some t ∧ P d i = false then 1 else 0) (g.trig d).length)
+    (fun d => sumUpTo (fun i => if (g.trig d)[i]? = some t ∧ P' d i = false then 1 else 0) (g.trig d).length)
+    (g.n + 1) a (by omega)
+    (by
+      intro x hxn hx
+      apply sumUpTo_congr
+      intro i hi
+      rw [hoth x i (by omega) hi (by intro h; exact hx h.1)])
+  omega
+
+/-- an action that has left `idle` has been decremented through every trigger entry
+pointing to it -/
+theorem edges_passed (hi : Inv cfg g f s) {t : Nat} (ht : t ≤ g.n) (hne : s.phase t ≠ .idle) :
+    ∀ d i, d ≤ g.n → (g.trig d)[i]? = some t → (s.phase d).passed i = true := by
   have hp : s.pending t = 0 := by
     have := (hi.idleIff t ht)
     by_cases h0 : 0 < s.pending t
@@ -98,42 +167,47 @@ theorem deps_passed (hw : WF g) (hi : Inv cfg g f s) {t : Nat} (ht : t ≤ g.n)
     · omega
   have hc := hi.pend t ht
   rw [hp] at hc
-  have hz := (List.countP_eq_zero.mp hc.symm) d hd
-  have hsome : (s.decAt d t).isSome = true := by
-    cases h : s.decAt d t <;> simp_all
+  exact openEdges_zero hc.symm
+
+/-- an action that has left `idle` has been decremented by all its dependencies -/
+theorem deps_passed (hw : WF g) (hi : Inv cfg g f s) {t : Nat} (ht : t ≤ g.n)
+    (hne : s.phase t ≠ .idle) : ∀ d ∈ g.deps t, ∃ i, (g.trig d)[i]? = some t ∧
+      (s.phase d).passed i = true := by
+  intro d hd
   have hdt := hw.deps_lt t ht d hd
   have hmem := hw.trig_complete t ht d hd
   obtain ⟨i, hi'⟩ := List.mem_iff_getElem?.mp hmem
-  refine ⟨i, hi', ?_, hsome⟩
-  rw [← hi.decIff d (by omega) i t hi']
-  exact hsome
+  exact ⟨i, hi', edges_passed hi ht hne d i (by omega) hi'⟩
 
 /-- `starts_after_deps`, state form: whatever has left `idle` has all its dependencies executed -/
 theorem deps_executed (hw : WF g) (hi : Inv cfg g f s) {t : Nat} (ht : t ≤ g.n)
     (hne : s.phase t ≠ .idle) : ∀ d ∈ g.deps t, (s.phase d).executed = true := by
   intro d hd
-  obtain ⟨i, _, hp, _⟩ := deps_passed hw hi ht hne d hd
+  obtain ⟨i, _, hp⟩ := deps_passed hw hi ht hne d hd
   exact passed_executed hp
 
 /-- facts about a decrement that is about to happen -/
 theorem dec_facts (hw : WF g) (hi : Inv cfg g f s) {a t k : Nat} (hph : s.phase a = .trig k)
     (hk : (g.trig a)[k]? = some t) :
-    a ≤ g.n ∧ t ≤ g.n ∧ a ∈ g.deps t ∧ a < t ∧ s.decAt a t = none ∧ 1 ≤ s.pending t ∧
+    a ≤ g.n ∧ t ≤ g.n ∧ a ∈ g.deps t ∧ a < t ∧ s.decAt a k = none ∧ 1 ≤ s.pending t ∧
     s.phase t = .idle := by
   have ha : a ≤ g.n := le_of_phase hi (by rw [hph]; simp)
   have hmem : t ∈ g.trig a := List.mem_iff_getElem?.mpr ⟨k, hk⟩
   obtain ⟨ht, hat⟩ := hw.trig_sound a ha t hmem
   have hlt := hw.deps_lt t ht a hat
-  have hnone : s.decAt a t = none := by
-    have := hi.decIff a ha k t hk
+  have hkl := getElem?_lt hk
+  have hnone : s.decAt a k = none := by
+    have := hi.decIff a ha k hkl
     rw [hph] at this
     simp [Phase.passed] at this
     exact this
   have hpos : 1 ≤ s.pending t := by
-    rw [hi.pend t ht]
-    have : 0 < (g.deps t).countP (fun d => (s.decAt d t).isNone) :=
-      List.countP_pos_iff.mpr ⟨a, hat, by simp [hnone]⟩
-    omega
+    false_or_by_contra
+    rename_i hcon
+    have h0 : s.pending t = 0 := by omega
+    rw [hi.pend t ht] at h0
+    have := openEdges_zero h0 a k ha hk
+    simp [passedP, hph, Phase.passed] at this
   exact ⟨ha, ht, hat, hlt, hnone, hpos, (hi.idleIff t ht).mpr (by omega)⟩
 
 end Verif.C06
